@@ -10,23 +10,29 @@ def sh(cmd, cwd=None, timeout=3000):
     return p.returncode, p.stdout
 
 def run(patch, props, tier="quick"):
-    rc, out = sh(["git", "-C", "/repo", "status", "--porcelain"])
-    if out.strip():
-        print("refusing: /repo is not clean"); return 2
-    rc, out = sh(["git", "-C", "/repo", "apply", "--whitespace=nowarn", patch])
+    """Applies the patch in a throw-away worktree of /repo and points the checks at it (VERIF_REPO), so that
+    checks running concurrently against /repo itself are not disturbed. Equivalent to
+    `git -C /repo apply <patch>; ./check ...; git -C /repo checkout -- .`."""
+    wt = "/tmp/seedrun-%d" % os.getpid()
+    sh(["git", "-C", "/repo", "worktree", "remove", "--force", wt])
+    rc, out = sh(["git", "-C", "/repo", "worktree", "add", "-q", wt, "HEAD"])
     if rc != 0:
-        print("patch does not apply:", out); return 2
+        print("cannot create worktree:", out); return 2
     res = {}
     try:
+        rc, out = sh(["git", "-C", wt, "apply", "--whitespace=nowarn", os.path.abspath(patch)])
+        if rc != 0:
+            print("patch does not apply:", out); return 2
+        env = dict(ENV, VERIF_REPO=wt)
         for p in props:
             t0 = time.time()
-            rc, out = sh(["./check", p, tier], cwd="/verif", timeout=7200)
+            pr = subprocess.run(["./check", p, tier], cwd="/verif", env=env, stdout=subprocess.PIPE, stderr=subprocess.STDOUT, text=True, timeout=7200)
+            rc, out = pr.returncode, pr.stdout
             lines = [l for l in out.splitlines() if l.startswith("VIOLATION") or l.startswith("KNOWN-FINDING") or l.startswith("INCONCLUSIVE") or l.startswith("BUILD-FAILED")]
             res[p] = {"rc": rc, "wall": round(time.time() - t0), "lines": [l[:400] for l in lines[:8]], "summary": out.strip().splitlines()[-1][:300] if out.strip() else ""}
             print(p, "rc=%d" % rc, res[p]["summary"]); [print("   ", l[:300]) for l in lines[:6]]
     finally:
-        sh(["git", "-C", "/repo", "checkout", "--", "."])
-        sh(["git", "-C", "/repo", "clean", "-fdq"])
+        sh(["git", "-C", "/repo", "worktree", "remove", "--force", wt])
     return res
 
 if __name__ == "__main__":
